@@ -918,6 +918,8 @@ impl<I: Interner> TypeSuperFoldable<I> for Goal<I> {
         folder: &mut dyn FallibleTypeFolder<I, Error = E>,
         outer_binder: DebruijnIndex,
     ) -> Result<Self, E> {
+        #[cfg(chalk_verif)]
+        crate::verif::tick();
         let interner = folder.interner();
         Ok(Goal::new(
             interner,
